@@ -16,13 +16,15 @@ EXPLANATION = ("Bounded symbolic execution of the real OKS / matching code over 
                "exception; OKS equals the reference sum over nodes visible in both poses of exp(-d^2/norm)/n_visible_gt (so gt-missing nodes are ignored and "
                "pr-missing nodes count as complete misses), lies in [0,1], is 1 for identical poses, is monotone in one keypoint's distance, invariant under "
                "translation and equivariant under instance permutation; match_instances uses every gt and pr at most once and pairs+false negatives = all gt; "
-               "greedy/Hungarian matching are one-to-one and total on min(n,m); IoU in [0,1], cosine similarity in [-1,1], -distance <= 0.")
+               "greedy/Hungarian matching are one-to-one and total on min(n,m); IoU in [0,1], cosine similarity in [-1,1], -distance <= 0. Binary64 slice "
+               "(symx/fpast.py): the arithmetic producing compute_oks's normalisation factor, lifted from the current source, is positive and finite for every "
+               "scale in [0, 2^40] and stddev in [2^-7, 2] in both normalisation modes (so a pose compared with itself never yields 0/0).")
 ASSUMPTIONS = ["exact real arithmetic + IEEE special values; a missing point has both coordinates NaN (one flag per point)",
                "exp uninterpreted with axioms (equalities, monotonicity) or fresh bounded real (range)", "stddev > 0, scale > 0 when given; np.spacing(1) is its float64 value",
                "frames are duck-typed stand-ins (the installed sleap_io API differs from the one the repo targets); scipy.optimize.linear_sum_assignment is the validated symbolic Hungarian model"]
 STUBS = ["evaluation.np / tracking.utils.np -> symx.numpyfe.NP proxy (real numpy except reductions/ufuncs on object arrays)",
          "tracking.utils.linear_sum_assignment -> symx.stubs.linear_sum_assignment_model (validated against scipy on seeded matrices)"]
-OUTSIDE = ["more than 2 gt x 2 predicted instances x 3 nodes", "float rounding", "3-D poses"]
+OUTSIDE = ["more than 2 gt x 2 predicted instances x 3 nodes", "float rounding other than in the normalisation factor (G1)", "3-D poses"]
 REQUIRED_WITNESSES = ["path-with-missing-gt-node", "path-with-missing-pr-node", "path-all-visible"]
 
 
@@ -57,12 +59,14 @@ def configs(tier, seed):
             out.append(dict(kind="assign", n=n, m=m, algo="greedy"))
         out.append(dict(kind="assign", n=n, m=m, algo="hungarian"))
     out.append(dict(kind="scores"))
+    for coco in (True, False):
+        out.append(dict(kind="float", coco=coco))
     out.append(dict(kind="validate", seed=seed))
     return out
 
 
 def run_config(cfg):
-    return {"oks": _run_oks, "mono": _run_mono, "invariance": _run_inv, "match": _run_match, "assign": _run_assign, "scores": _run_scores, "validate": _validate}[cfg["kind"]](cfg)
+    return {"oks": _run_oks, "mono": _run_mono, "invariance": _run_inv, "match": _run_match, "assign": _run_assign, "scores": _run_scores, "float": _run_float, "validate": _validate}[cfg["kind"]](cfg)
 
 
 def _install():
@@ -608,6 +612,75 @@ def _validate(cfg):
 
 
 # ------------------------------------------------------------------ replay against real numpy / scipy
+# ------------------------------------------------------------------ binary64 slice of the OKS normalisation
+SCALE_MAX = 2.0 ** 40
+STD_MIN, STD_MAX = 2.0 ** -7, 2.0
+
+
+def _float_slice(coco):
+    import sleap_nn.evaluation as ev
+    from symx.fpast import FloatSlice, F64
+    scale, stddev = z3.FP("scale", F64), z3.FP("stddev", F64)
+    sl = FloatSlice(ev.compute_oks, {"scale": scale, "stddev": stddev}, ["normalization_factor"], consts={"use_cocoeval": coco})
+    return scale, stddev, sl
+
+
+def _run_float(cfg):
+    """An identical pose has distance 0 to itself, so its similarity is exp(-0 / normalisation) = 1 exactly when the per-keypoint
+    normalisation factor is a positive finite binary64 number (0/0 is NaN).  The arithmetic that produces `normalization_factor`
+    in compute_oks is lifted from the current source (symx/fpast.py) and decided in IEEE binary64 for every scale in [0, 2^40]
+    (0 = zero-area bounding box: one visible node, coincident or axis-aligned points) and every stddev in [2^-7, 2]."""
+    import time
+    from symx.harness import Report
+    from symx.fpast import fpval, fp_model_value
+    from symx.xf import EngineGap
+    rep = Report(cfg)
+    rep.paths = rep.nontrivial_paths = 1
+    name = "G1-normalisation-factor-positive-and-finite-in-binary64"
+    for w in REQUIRED_WITNESSES:
+        rep.witness(w, True)
+    try:
+        scale, stddev, sl = _float_slice(cfg["coco"])
+    except EngineGap as e:
+        rep.record(name, "unknown")
+        rep.inconclusive_item("float", f"slice not extractable from the current source: {e}")
+        return rep.finish()
+    nf = sl.exprs["normalization_factor"]
+    s = z3.Solver()
+    s.set("timeout", 240000)
+    s.add(z3.fpGEQ(scale, fpval(0.0)), z3.fpLEQ(scale, fpval(SCALE_MAX)), z3.fpGEQ(stddev, fpval(STD_MIN)), z3.fpLEQ(stddev, fpval(STD_MAX)))
+    s.add(z3.Not(z3.And(z3.fpGT(nf, fpval(0.0)), z3.Not(z3.fpIsInf(nf)), z3.Not(z3.fpIsNaN(nf)))))
+    t0 = time.time()
+    r = str(s.check())
+    dt = time.time() - t0
+    rep.record(name, r, dt)
+    if r == "sat":
+        mo = s.model()
+        vals = {"scale": fp_model_value(mo, scale), "stddev": fp_model_value(mo, stddev)}
+        rep.violation(name, f"float:normalisation:{'coco' if cfg['coco'] else 'paper'}", f"binary64 normalisation factor is not a positive finite number at {vals}: identical poses get 0/0", {"values": vals, "slice": sl.source()})
+    elif r != "unsat":
+        rep.inconclusive_item(name, "solver returned unknown / timeout")
+    rep.sample({"slice": sl.source(), "scale": [0, SCALE_MAX], "stddev": [STD_MIN, STD_MAX]})
+    return rep.finish(stats={"queries": 1, "solver_s": dt})
+
+
+def _replay_float(cfg, inputs):
+    import numpy as np, warnings
+    warnings.simplefilter("ignore")
+    import sleap_nn.evaluation as ev
+    from symx.harness import unjson_float
+    sc, sd = float(unjson_float(inputs["values"]["scale"])), float(unjson_float(inputs["values"]["stddev"]))
+    _, _, sl = _float_slice(cfg["coco"])
+    g = sl.concrete({"scale": np.array([sc]), "stddev": np.array([sd]), "n_gt": 1, "n_nodes": 1, "n_pr": 1})
+    nf = float(np.asarray(g["normalization_factor"]).reshape(-1)[0])
+    pts = np.array([[[3.0, 4.0]]])
+    oks = ev.compute_oks(pts, pts.copy(), scale=sc, stddev=sd, use_cocoeval=cfg["coco"])
+    v = float(np.asarray(oks).reshape(-1)[0])
+    bad = not (nf > 0 and np.isfinite(nf)) or not (abs(v - 1.0) <= 1e-9)
+    return bool(bad), f"normalisation factor {nf!r} at scale={sc!r}, stddev={sd!r}; compute_oks of a pose with itself = {v!r}"
+
+
+
 def replay(cfg, inputs, obligation):
     import numpy as np, warnings
     PER_COORD[0] = bool(cfg.get("per_coord"))
@@ -616,6 +689,8 @@ def replay(cfg, inputs, obligation):
     import sleap_nn.tracking.utils as tu
     warnings.simplefilter("ignore")
     kind = cfg["kind"]
+    if kind == "float":
+        return _replay_float(cfg, inputs)
     if kind in ("oks", "mono", "invariance"):
         gt = np.array(unjson_float(inputs["gt"]), dtype=np.float64)
         pr = np.array(unjson_float(inputs["pr"]), dtype=np.float64)
